@@ -29,6 +29,7 @@ type orc struct {
 	w     *bufio.Writer
 	mu    sync.Mutex
 	fails int
+	hangs int32 // watchdog expiries; after two the remaining concurrent configurations are not started
 	count map[string]int
 }
 
@@ -67,6 +68,7 @@ func (o *orc) guarded(class, what string, d time.Duration, f func()) bool {
 		}
 		return true
 	case <-time.After(d):
+		atomic.AddInt32(&o.hangs, 1)
 		o.fail(class, "%s: no result after %v (deadlock or lost wake-up)", what, d)
 		return false
 	}
@@ -290,7 +292,7 @@ func (o *orc) counterCase(depth, n, k int, present bool, noise int) {
 	}
 	var stop int32
 	var wg, nwg sync.WaitGroup
-	ok := o.guarded("no_lost_update", what, 60*time.Second, func() {
+	ok := o.guarded("no_lost_update", what, 30*time.Second, func() {
 		for g := 0; g < noise; g++ {
 			nwg.Add(1)
 			go func(g int) {
@@ -368,7 +370,7 @@ func (o *orc) sentinelCase(depth, holders, intruders, rounds int) {
 	var stop int32
 	var inside int32 // number of goroutines between LockData and Commit on s
 	var wg, iwg sync.WaitGroup
-	o.guarded("lock_exclusive", what, 60*time.Second, func() {
+	o.guarded("lock_exclusive", what, 30*time.Second, func() {
 		for g := 0; g < intruders; g++ {
 			iwg.Add(1)
 			go func(g int) {
@@ -453,6 +455,7 @@ func (o *orc) blockCase(depth int, which int) {
 	select {
 	case <-done:
 	case <-time.After(mustFinish):
+		atomic.AddInt32(&o.hangs, 1)
 		o.fail("lock_exclusive", "%s still blocked %v after Commit (depth %d)", names[which], mustFinish, depth)
 	}
 	o.tick("conc:block")
@@ -479,7 +482,7 @@ func (o *orc) getOrCreateCase(n int, childDepth int, parentFirst bool) {
 	errs := make([][3]error, n)
 	var wg sync.WaitGroup
 	startGate := make(chan struct{})
-	o.guarded("get_or_create_once", what, 60*time.Second, func() {
+	o.guarded("get_or_create_once", what, 30*time.Second, func() {
 		for g := 0; g < n; g++ {
 			wg.Add(1)
 			go func(g int) {
@@ -528,7 +531,7 @@ func oracle(n int) {
 	defer w.Flush()
 	o := &orc{r: hx.NewRand(hx.SeedFromEnv()*0x2545f4914f6cdd1d + 7), w: w, count: map[string]int{}}
 	// n scales everything: n sequential cases, n/4 concurrent configurations of each kind
-	for i := 0; i < n; i++ {
+	for i := 0; i < n && atomic.LoadInt32(&o.hangs) < 2; i++ {
 		o.guarded("sequential", "sequential case", 30*time.Second, o.seqCase)
 	}
 	conc := n / 4
@@ -536,7 +539,8 @@ func oracle(n int) {
 		conc = 8
 	}
 	ns := []int{2, 3, 4, 8, 16, 32, 64}
-	for i := 0; i < conc; i++ {
+	stuck := func() bool { return atomic.LoadInt32(&o.hangs) >= 2 }
+	for i := 0; i < conc && !stuck(); i++ {
 		depth := i % 5
 		nn := ns[o.r.Intn(len(ns))]
 		k := 20 + o.r.Intn(200)
@@ -545,13 +549,13 @@ func oracle(n int) {
 		}
 		o.counterCase(depth, nn, k, i%3 != 2, o.r.Intn(4))
 	}
-	for i := 0; i < conc; i++ {
+	for i := 0; i < conc && !stuck(); i++ {
 		o.sentinelCase(i%5, 1+o.r.Intn(4), 1+o.r.Intn(6), 100+o.r.Intn(300))
 	}
-	for i := 0; i < conc; i++ {
+	for i := 0; i < conc && !stuck(); i++ {
 		o.blockCase(i%5, i%4)
 	}
-	for i := 0; i < conc; i++ {
+	for i := 0; i < conc && !stuck(); i++ {
 		o.getOrCreateCase(ns[i%len(ns)], i%4, i%5 == 4)
 	}
 	total := 0
